@@ -151,7 +151,7 @@ func (tp *realTransport) Dereference(c context.Context, iri *url.URL) ([]byte, e
 		rec.Res = "fault"
 		tp.s.World.Derefs = append(tp.s.World.Derefs, rec)
 		tp.s.logEv(Event{Srv: tp.srv.Spec.Host, Kind: "tp.Dereference", ID: id, Fault: true, Res: "err"})
-		return nil, errInjected
+		return nil, injectedErr(tp.s, msg.fault, "")
 	}
 	if isPublic(id) {
 		tp.s.violate("C02", "public-dereferenced", "tp.Dereference", "the Public collection was dereferenced by "+t.ID)
